@@ -157,6 +157,9 @@ func GenericShrink(sc *gen.Scenario) []*gen.Scenario {
 var KnobQuiet = map[string]int64{
 	"faults": 0, "delay_mode": 3, "plan_policy": 1, "max_reads": 0, "optimizations": 0, "level": 0,
 	"breadth": 25, "evict_pm": 0, "drop_pm": 0, "conc": 1, "iter_latency": 0,
+	// kernel harness
+	"producers": 1, "items": 1, "consumers": 1, "oneshot": 0, "grow": 0, "close_mode": 0, "capacity": 2, "extensions": 0,
+	"max_yield_ns": 2000, "members": 2, "early_close": 0,
 }
 
 func sortedKnobs(m map[string]int64) []string {
